@@ -822,3 +822,60 @@ def m_slice(ip, args, kw, st, node):
     if len(args) == 1:
         a = [None, args[0], None]
     return [(PySlice(a[0], a[1], a[2]), st)]
+
+
+@model("pm.pad")
+def m_pm_pad(ip, args, kw, st, node):
+    """pulser.math.pad(a, (before, after), mode='constant'|'edge', constant_values=c)  (A-NUMPY)"""
+    a, width = args[0], args[1]
+    mode = kw.get("mode", "constant")
+    cv = kw.get("constant_values", 0.0)
+    sv = ip.as_seq(a, st)
+    if isinstance(width, tuple):
+        before, after = width
+    else:
+        before = after = width
+    bt, _ = znum(before)
+    at, _ = znum(after)
+    j = z3.Int("j!pad")
+    if isinstance(mode, str):
+        modes = [(True, mode)]
+    else:
+        raise OutOfSubset("pm.pad with a symbolic mode", node)
+    if mode == "constant":
+        ct, _ = znum(cv)
+        lo = hi = to_real(ct)
+    elif mode == "edge":
+        lo, hi = z3.Select(sv.arr, 0), z3.Select(sv.arr, sv.n - 1)
+    else:
+        raise OutOfSubset(f"pm.pad mode {mode}", node)
+    arr = z3.Lambda([j], z3.If(j < bt, lo, z3.If(j < bt + sv.n, z3.Select(sv.arr, j - bt), hi)))
+    return [(SeqV(sv.n + bt + at, arr, "real"), st)]
+
+
+@model("replace")
+def m_replace(ip, args, kw, st, node):
+    """dataclasses.replace on a declared shape: a new object with the same class and fields, except the given ones.
+    (The dataclass __post_init__ is not re-executed: its assertions are the class invariant, listed as an assumption.)"""
+    obj = args[0]
+    if not (isinstance(obj, Sym) and is_ref_ty(obj.ty)):
+        raise OutOfSubset("replace on a non-object", node)
+    cls = obj.ty[1]
+    sh = SHAPES[cls]
+    from .core import dyn_class
+    r = fresh("new" + cls, Ref)
+    st.assume(dyn_class(r) == dyn_class(obj.t))
+    for f, (ty, mut) in sh.fields.items():
+        if f.startswith("$") or f in getattr(sh, "derived", ()):
+            continue       # derived fields are recomputed by __post_init__ (see the class's replace hook)
+        val = kw[f] if f in kw else ip.read_field(obj.t, cls, f, st)
+        if mut:
+            ip.write_field(r, cls, f, val, st, node)
+        else:
+            if isinstance(val, Opaque):
+                continue
+            ip.define_field(r, cls, f, ty, val, st)
+    hook = MODELS.get(f"replace:{cls}")
+    if hook:
+        hook(ip, r, st)
+    return [(Sym(r, ("ref", cls)), st)]
